@@ -11,6 +11,7 @@ from __future__ import annotations
 import numpy as np
 
 from .. import em, games, gm
+from .. import prelude
 from ..core import Sim
 
 LEVEL = "exploration"
@@ -75,11 +76,14 @@ def run_object(sim: Sim) -> None:
     cls = sim.pick(["ANY", "SA", "SAM"], "class")
     values, exact = games.draw_game(sim, n, cls)
     sim.config.update(n=n, computer=comp_name, cls=cls, exact=exact, machine="object")
+    prelude.warm_process(sim)
     h = gm.GameHarness(sim, n, comp_name, values)
     h.reset_minimal(sim.subset(h.explorable, "start-extra", 1, 4))
     seen_masks: dict[int, int] = {}
     steps = 6 + sim.choose(30 if n <= 4 else 14, "steps")
     for _ in range(steps):
+        if sim.flip(1, 16, "other-use"):
+            prelude.warm_process(sim, label="midrun")
         with sim.guard("C08.operation_raised"):
             was_torn = h.torn
             ops_before = dict(sim.ops)
@@ -123,6 +127,7 @@ def run_env(sim: Sim) -> None:
     gap_name = sim.pick(sorted(gaps), "gap")
     values, exact = games.draw_game(sim, n, cls)
     sim.config.update(n=n, computer=comp_name, cls=cls, gap=gap_name, machine="env")
+    prelude.warm_process(sim)
     with sim.guard("C08.operation_raised"):
         env = em.make_env(n, comp_name, em.ListSource([values], n), gaps[gap_name], None)
     depth = 0
